@@ -54,3 +54,8 @@ def run(ctx):
     # pointer non-NULL is the caller's contract for sample buffers: drop those obligations
     ctx.rules.pop('BLOCK-NULL', None)
     ctx.findings[:] = [x for x in ctx.findings if x['rule'] != 'BLOCK-NULL']
+
+    ctx.rule('SIBLING-INDEX', 'for every codec that installs the four typed read (write) functions together: the int / float / double variants (and the short variant when it stages) use the same set of '
+             'addressing expressions over the codec private struct (buffer offsets, indices) — a copy-paste slip in one variant shows as a set difference', floor=30)
+    from engine.siblings import check_siblings
+    check_siblings(ctx, prog, 'SIBLING-INDEX', ('pcm.c', 'float32.c', 'double64.c', 'ulaw.c', 'alaw.c'))
